@@ -5,6 +5,7 @@ import fractions
 import math
 import time
 
+import numpy as np
 import z3
 
 from . import core
@@ -84,7 +85,7 @@ def dyadic_constraints(variables, denom=64):
 
 
 def discharge(log: UnitLog, c: core.Ctx, name, prop, variables, concrete, *, finding=None, timeout_ms=20000,
-              robust=None, extra=(), sample=False, desc=None):
+              robust=None, extra=(), sample=False, desc=None, ctxfree_ms=0):
     """Decide one obligation on one path.
 
     prop       property instance (z3 Bool / SymBool / bool) that must follow from assumptions + path condition
@@ -92,30 +93,61 @@ def discharge(log: UnitLog, c: core.Ctx, name, prop, variables, concrete, *, fin
     concrete   callable(inputs: dict) -> (violated: bool, detail: dict): runs the REAL code on plain python
                numbers (no proxies) and evaluates the same property; used to replay counterexamples
     robust     optional stronger negation (z3 Bool) used to look for a witness that survives rounding
+
+    Stages (each sound for "holds"): (1) syntactic simplification; (2) validity without the path condition and without
+    the definitions of named terms (generalisation); (3) path condition without definitions; (4) everything.
+    Only a sat answer of the complete query (4) - or a generalised model that REPLAYS on the real code - is a counterexample.
     """
     if _CEX_SEEN[0] >= MAX_CEX_PER_PROCESS:
         # the verdict of this run is already "violated" (reproduced counterexamples exist): do not spend more solver time
         log['skipped_after_violation'] = log.d.get('skipped_after_violation', 0) + 1
         return 'skipped'
     log['obligations'] += 1
+    pt = prop.t if isinstance(prop, core.SymBool) else prop
+    gen_model = None
+
+    def _ok(dt, note):
+        log['discharged'] += 1
+        log['max_query_s'] = max(log['max_query_s'], dt)
+        if sample and len(log['samples']) < 3:
+            log['samples'].append({'obligation': name, 'verdict': 'unsat', 'time_s': round(dt, 4), 'query': desc or name, 'stage': note,
+                                   'path_decisions': [int(t[0]) for t in c.trace][:40]})
+        return 'unsat'
+    if not isinstance(pt, (bool, np.bool_)):
+        if ctxfree_ms or c.defs:
+            sp = z3.simplify(pt)
+            if z3.is_true(sp):
+                log['stage_simplify'] = log.d.get('stage_simplify', 0) + 1
+                return _ok(0.0, 'simplify')
+            if ctxfree_ms:
+                r0, m0, dt0 = core.check_sat(list(c.defined) + list(c.side) + list(extra) + [z3.Not(sp)], min(timeout_ms, ctxfree_ms))
+                log['solver_s'] += dt0
+                if r0 == 'unsat':
+                    log['stage_ctxfree'] = log.d.get('stage_ctxfree', 0) + 1
+                    return _ok(dt0, 'valid without the path condition')
+        if c.defs:
+            r1, m1, dt1 = core.check_sat(c.all_constraints(with_defs=False) + list(extra) + [z3.Not(pt)], timeout_ms)
+            log['solver_s'] += dt1
+            if r1 == 'unsat':
+                log['stage_nodefs'] = log.d.get('stage_nodefs', 0) + 1
+                return _ok(dt1, 'path condition, named terms left uninterpreted')
+            if r1 == 'sat':
+                gen_model = m1
     verdict, m, dt = core.prove(c, prop, extra=extra, timeout_ms=timeout_ms)
     log['solver_s'] += dt
-    log['max_query_s'] = max(log['max_query_s'], dt)
     rec = {'obligation': name, 'verdict': verdict, 'time_s': round(dt, 4)}
-    if desc:
-        rec['query'] = desc
     if verdict == 'unsat':
-        log['discharged'] += 1
-        if sample and len(log['samples']) < 3:
-            rec['path_decisions'] = [int(t[0]) for t in c.trace][:40]
-            log['samples'].append(rec)
-        return 'unsat'
+        return _ok(dt, 'full')
+    how0 = 'model'
     if verdict == 'unknown':
-        log['inconclusive'].append({'obligation': name, 'why': 'solver unknown/timeout', 'time_s': round(dt, 2)})
-        return 'unknown'
+        if gen_model is None:
+            log['inconclusive'].append({'obligation': name, 'why': 'solver unknown/timeout', 'time_s': round(dt, 2)})
+            return 'unknown'
+        # complete query undecided, but the generalised query has a model: it is a counterexample only if it replays
+        m, how0 = gen_model, 'generalised-model'
     # sat: counterexample candidate -> replay on the real code in floats
     attempts = []
-    tries = [('model', m)]
+    tries = [(how0, m)]
     reproduced = None
     for how, mdl in tries:
         inputs = model_inputs(mdl, variables)
@@ -127,10 +159,9 @@ def discharge(log: UnitLog, c: core.Ctx, name, prop, variables, concrete, *, fin
         if violated:
             reproduced = attempts[-1]
             break
-        if how == 'model':
+        if how == how0 and how0 == 'model':
             base = c.all_constraints() + list(extra)
-            neg = [robust] if robust is not None else [z3.Not(prop.t if isinstance(prop, core.SymBool) else prop)] \
-                if not isinstance(prop, bool) else []
+            neg = [robust] if robust is not None else ([z3.Not(pt)] if not isinstance(pt, (bool, np.bool_)) else [])
             if robust is not None:
                 r2, m2, dt2 = core.check_sat(base + neg, min(timeout_ms, 10000))
                 log['solver_s'] += dt2
@@ -140,6 +171,9 @@ def discharge(log: UnitLog, c: core.Ctx, name, prop, variables, concrete, *, fin
             log['solver_s'] += dt3
             if r3 == 'sat':
                 tries.append(('dyadic', m3))
+    if reproduced is None and how0 == 'generalised-model':
+        log['inconclusive'].append({'obligation': name, 'why': 'complete query unknown; generalised model did not replay', 'time_s': round(dt, 2)})
+        return 'unknown'
     cex = {'obligation': name, 'finding': finding, 'config': log['config'], 'reproduced': reproduced is not None,
            'attempts': attempts[-2:], 'inputs': (reproduced or attempts[0])['inputs'],
            'detail': (reproduced or attempts[0])['detail'], 'how': (reproduced or attempts[0])['how']}
